@@ -134,6 +134,34 @@ def run_skeletons(chk, F, rule="D2.skeleton"):
                    sample={"code": code, "paths": len(seqs), "fields": [[k for k, _ in s] for s in seqs][:2]})
 
 
+def check_omega_doc(chk):
+    """omega.rs header: the example string must be the concatenation of the blocks it lists (and of the definition)"""
+    import os, re
+    import facts
+    import refspec
+    chk.rule("D1.doc.omega", floor=0, doc="documented example of omega.rs: the printed codeword is the concatenation of the blocks listed next to it and equals the block definition")
+    try:
+        text = open(os.path.join(facts.REPO, "src", "codes", "omega.rs")).read()
+    except OSError:
+        return
+    text = re.sub(r"\n//!\s*", " ", text)
+    found = []
+    for m in re.finditer(r"`([01]+)`, which is formed by the blocks ((?:`[01]+`(?:, and |, | and )?)+)\s*represents (\d+)", text):
+        found.append((m.group(1), re.findall(r"`([01]+)`", m.group(2)), int(m.group(3)), False))
+    for m in re.finditer(r"little-endian case, the code for (\d+) is `([01]+)`, which is formed by the blocks ((?:`[01]+`(?:, and |, | and )?)+)", text):
+        found.append((m.group(2), re.findall(r"`([01]+)`", m.group(3)), int(m.group(1)), True))
+    for word, blocks, val, le in found:
+        fl = refspec.fields("omega", "le" if le else "be", (), val, val)
+        want = ["{:0{w}b}".format(refspec.value_at(f[1], val) & ((1 << f[2]) - 1), w=f[2]) for f in fl]
+        # the little-endian example is printed right to left (last bit of the stream first)
+        shown = word if not le else word[::-1]
+        cat = "".join(blocks) if not le else "".join(b[::-1] for b in blocks)
+        ok = blocks == want and shown == cat
+        chk.expect("D1.doc.omega", "%s(%d)" % ("le" if le else "be", val), ok,
+                   "src/codes/omega.rs documents the %s code of %d as `%s` formed by blocks %s: the blocks give %s, the definition gives blocks %s" % ("little-endian" if le else "big-endian", val, word, blocks, cat if not le else cat[::-1], want),
+                   sample={"word": word, "blocks": blocks})
+
+
 def run_all(chk, fsets, tier):
     import facts
     F = facts.load(fsets[0])
@@ -141,4 +169,8 @@ def run_all(chk, fsets, tier):
     rt.check_encode_tables(chk, F, rule="D1.encode", len_rule="D1.len")
     rt.check_doc_table(chk, F, "D1.doc")
     run_skeletons(chk, F)
+    check_omega_doc(chk)
+    import rules_ivl
+    rules_ivl.run_c04_fields(chk, F, fsets[0], tier)
+    chk.trust("sa/refspec.py (field-level definitions written from the module docs, cross-checked against refcodes.py), transfer functions of sa/ivl.py")
     chk.trust("rustc const evaluation and MIR, exporter, refcodes.py (definitions written from the module docs), the field-skeleton table in sa/rules_c04.py (written from the module docs)")
